@@ -103,6 +103,18 @@ Section Spec.
                                          | None => false
                                          end) (carried cr)) visible.
 
+  (* databases whose shards/indexes were read (or written) while a request was executed, or whose
+     measurement/tag/field names appear in its answer: each must be readable by an existing user
+     the request carries valid credentials of *)
+  Definition may_read (ui : user) (db : str) : bool :=
+    u_admin ui || grant_covers (lookup_priv (u_privs ui) db) ReadPrivilege.
+
+  Definition dbread_obs_ok (users : list user) (secret_set : bool) (cr : creds) (reads : list str) : bool :=
+    forallb (fun db => existsb (fun c => match cred_valid users secret_set c with
+                                         | Some ui => may_read ui db
+                                         | None => false
+                                         end) (carried cr)) reads.
+
   (* what a successful user-management statement must have achieved, read off the user table
      the node reports afterwards.  REVOKE r: no need overlapping r is covered by the grant on
      that database any more (an administrator keeps access through the admin flag only) *)
